@@ -90,6 +90,18 @@ theorem subst_malformed_is_err (env : Env) (t : List Seg) (r : Str) (h : WF t = 
   | err e => exact ⟨e, rfl⟩
   | panic p => exact absurd hev (hnp p)
 
+/-- `WellFormedBrace` is exact: the regular expression takes its `invalid` alternative after `${`
+    precisely on the texts that are not `NAME}` / `NAME op … }`-on-the-same-line -/
+theorem invalid_alternative_iff (r : Str) :
+    (∃ m rest, matchDollar ('$' :: '{' :: r) = some (.invalid, m, rest)) ↔ ¬ WellFormedBrace r := by
+  rw [← matchBraced_invalid_iff, matchDollar_brace]
+  constructor
+  · rintro ⟨m, rest, h⟩
+    injection h with h
+    exact (Prod.mk.inj h).1
+  · intro h
+    exact ⟨_, _, by rw [h]⟩
+
 /-! ## The refinement -/
 
 /-- **Refinement.** On the concrete syntax of every well-formed template — any nesting depth, any size —
